@@ -246,8 +246,11 @@ def gen_chain_state(rng, quick):
     model = Model(basis, [])
     sectors = L.reachable_sectors(basis, k)
     desc = dict(spec=L.jsonable(spec), kind=kind)
+    zero = tuple([0] * k)
     if kind in ("random", "noqn", "applied", "sum"):
         sector = list(sectors[int(rng.integers(len(sectors)))])
+        if zero in sectors and len(sectors) > 2 and rng.random() < 0.5:
+            sector = list(zero)      # vanishing total charge with several populated blocks per bond
         m_max = int(rng.integers(1, 9))
         nsum = 1 if kind != "sum" else int(rng.integers(2, 4))
         parts = []
